@@ -64,19 +64,25 @@ theorem write_inv (orig ref : Bytes) (t : St) (data : Bytes) (h : Inv0 orig ref 
     ∧ (write .fixed t data).pos = t.pos ∧ (write .fixed t data).closed = t.closed
     ∧ (write .fixed t data).ds = t.ds
     ∧ (t.closed = false → t.dl < t.ds → (write .fixed t data).dl = t.dl + data.length) := by
-  unfold write
-  cases hc : t.closed
-  · simp only [Bool.false_eq_true, ↓reduceIte]
-    by_cases hge : t.dl ≥ t.ds
-    · simp only [hge, ↓reduceIte]
-      exact ⟨h, hfl, rfl, hc, rfl, fun _ hlt => by omega⟩
-    · simp only [hge, ↓reduceIte]
-      have hget' := hget hc (by omega)
+  generalize hr : write .fixed t data = r
+  unfold write at hr
+  split at hr
+  · rename_i hc
+    subst hr
+    exact ⟨h, hfl, rfl, rfl, rfl, fun hf => by rw [hc] at hf; cases hf⟩
+  · rename_i hc
+    have hc' : t.closed = false := by simpa using hc
+    split at hr
+    · rename_i hge
+      subst hr
+      exact ⟨h, hfl, rfl, rfl, rfl, fun _ hlt => by omega⟩
+    · rename_i hge
+      have hget' := hget hc' (by omega)
       have := writeLoop_inv orig ref (t.dl + data.length) t.ow.length t
         (if t.dl + data.length > t.ds then data.take (t.ds - t.dl) else data)
         h hfl (Nat.le_refl _) (by simp) (by
           constructor
-          · split <;> simp <;> omega
+          · split <;> (try simp only [List.length_take]) <;> omega
           · intro j hj
             split
             · rename_i hgt
@@ -87,9 +93,8 @@ theorem write_inv (orig ref : Bytes) (t : St) (data : Bytes) (h : Inv0 orig ref 
               simp only [hgt, ↓reduceIte] at hj
               exact hget' j hj)
       obtain ⟨r1, r2, r3, r4, r5, r6, r7, r8⟩ := this
-      exact ⟨r1, r2, r7, by rw [r6, hc], r4, fun _ _ => r3⟩
-  · simp only [↓reduceIte]
-    exact ⟨h, hfl, rfl, hc, rfl, fun hf => by cases hf⟩
+      subst hr
+      exact ⟨r1, r2, r7, r6, r4, fun _ _ => r3⟩
 
 /-- a download chunk keeps the invariant -/
 theorem chunk_inv (orig ref : Bytes) (s : St) (n : Nat) (h : Inv orig ref s) :
@@ -116,11 +121,13 @@ theorem chunk_inv (orig ref : Bytes) (s : St) (n : Nat) (h : Inv orig ref s) :
   · -- `write` returned at once; `downloaded` is unchanged and not below `download_size`
     exfalso
     have : (write .fixed { s with pos := s.pos + data.length } data).dl = s.dl := by
-      unfold write
-      simp only [show ({ s with pos := s.pos + data.length } : St).closed = false from hc, Bool.false_eq_true, ↓reduceIte]
-      have : ({ s with pos := s.pos + data.length } : St).dl ≥ ({ s with pos := s.pos + data.length } : St).ds := by
-        show s.dl ≥ s.ds; omega
-      simp only [this, ↓reduceIte]
+      generalize hr : write .fixed { s with pos := s.pos + data.length } data = r
+      unfold write at hr
+      split at hr
+      · subst hr; rfl
+      · split at hr
+        · subst hr; rfl
+        · rename_i hx; exact absurd (show s.dl ≥ s.ds by omega) hx
     rw [this] at hlt
     exact hlt0 hlt
 
